@@ -583,8 +583,28 @@ def r5_query(ctx, rid):
     def leaf(n):
         if isinstance(n, ast.Call) and call_name(n) in ("bisect_right", "bisect"):
             a = n.args
-            if len(a) == 2 and _is_self_attr(a[0], selfn, "_t") and is_query(a[1]):
+            if len(a) == 2 and not n.keywords and _is_self_attr(a[0], selfn, "_t") and is_query(a[1]):
                 return B
+            # explicit search bounds: the whole record [0, n) (lo 0, or 1 behind the lower clamp; hi = number of records) is the same
+            # search; a lower bound remembered on the object by the query method itself hides every record before it
+            if len(a) >= 2 and _is_self_attr(a[0], selfn, "_t") and (is_query(a[1]) or (isinstance(a[1], ast.Call) and call_name(a[1]) == "float"
+                                                                                      and len(a[1].args) == 1 and is_query(a[1].args[0]))):
+                bounds = dict(zip(("lo", "hi"), a[2:4]))
+                bounds.update({k.arg: k.value for k in n.keywords if k.arg in ("lo", "hi")})
+                lo_e, hi_e = bounds.get("lo"), bounds.get("hi")
+                lo_ok = lo_e is None or (isinstance(lo_e, ast.Constant) and lo_e.value in (0, 1))
+                hi_ok = hi_e is None or _is_self_attr(hi_e, selfn, "_n") or (isinstance(hi_e, ast.Call) and call_name(hi_e) == "len"
+                                                                              and len(hi_e.args) == 1 and _is_self_attr(hi_e.args[0], selfn, "_t"))
+                if lo_ok and hi_ok and len(a) <= 4 and all(k.arg in ("lo", "hi") for k in n.keywords):
+                    return B
+                if lo_e is not None and isinstance(lo_e, ast.Attribute) and isinstance(lo_e.value, ast.Name) and lo_e.value.id == selfn \
+                        and any(isinstance(w, ast.Attribute) and isinstance(w.ctx, ast.Store) and w.attr == lo_e.attr and isinstance(w.value, ast.Name)
+                                and w.value.id == selfn for w in ast.walk(f.node)):
+                    ctx.violation(rid, f, n, f"`{ast.unparse(n)}` starts the interval search at `{ast.unparse(lo_e)}`, a position the query method itself "
+                                             f"stores on the object: a query earlier than the previous one (second delay, rejected step, any "
+                                             f"non-monotone order) cannot reach the records before it and is answered from the wrong interval",
+                                  label="interval search restricted by a remembered position")
+                    return B
             raise AnalysisError(f"{rid}: unrecognised bisect call {ast.unparse(n)}")
         if isinstance(n, ast.Call) and call_name(n) == "bisect_left":
             return sp.Symbol("B_left")
